@@ -24,8 +24,18 @@ EXC_ALIASES = {'zlib.error': 'ZlibError', 'error': 'ZlibError', 'asyncio.Cancell
                'ssl.SSLError': 'SSLError', 'ConnectionAbortedError': 'ConnectionError', 'ConnectionResetError': 'ConnectionError'}
 MUTATORS = {'append', 'add', 'remove', 'pop', 'discard', 'clear', 'appendleft', 'update', 'extend', 'popleft', 'insert', 'setdefault', 'write'}
 core_fresh_ids = itertools.count(1)
+
+
+def zstr(term):
+    """Python value of a z3 string literal (z3 prints non-printable characters as \\u{..})"""
+    import re as _re
+    raw = term.as_string()
+    return _re.sub(r'\\u\{([0-9a-fA-F]+)\}', lambda m: chr(int(m.group(1), 16)), raw)
+
+
 NONE_OK = {'isinstance', 'str', 'bool', 'hasattr', 'repr', 'len', 'int', 'min', 'max', 'abs', 'wpull.util.reset_file_offset'}
 JOIN_ELEMENT_CLASSES = []      # library lemma instances: (all pieces in R) => ''.join(pieces) in R*
+REPLACE_CLASSES = []
 UPPER_CLOSED_CLASSES = []      # character classes closed under a-f -> A-F
 JOIN = z3.Function('join', z3.StringSort(), z3.ArraySort(z3.IntSort(), z3.StringSort()), z3.IntSort(), z3.StringSort())
 
@@ -316,6 +326,8 @@ def ascii_case(st, t, fn):
     """lower()/upper(): length-preserving on ASCII (assumed for all inputs, DESIGN 2.6 -- validated per code point);
     definitional equations for literals are added when a literal is compared"""
     r = fn(t)
+    asc = z3.Star(z3.Range(chr(0), chr(127)))
+    st.assume(z3.Implies(z3.InRe(t, asc), z3.InRe(r, asc)))          # ASCII stays ASCII under case mapping
     st.assume(z3.Implies(z3.InRe(t, z3.Star(z3.Range(chr(0), chr(127)))), z3.Length(r) == z3.Length(t)))
     st.assume((t == z3.StringVal('')) == (r == z3.StringVal('')))
     return r
@@ -431,11 +443,20 @@ def call_method(ex, st, node, recv, name, args, kwargs):
                 parts.append(it.term)
             return VStr(z3.Concat(*parts) if len(parts) > 1 else (parts[0] if parts else z3.StringVal('')), recv.ty), None
         if not isinstance(lst, VList): raise ToolLimit('join of %s (line %s)' % (type(lst).__name__, ln))
+        nn = z3.simplify(lst.n)
+        if z3.is_int_value(nn) and nn.as_long() <= 24:
+            # concrete, small number of pieces: the join is their concatenation
+            k = nn.as_long(); parts = []
+            for j in range(k):
+                if j: parts.append(recv.term)
+                parts.append(z3.simplify(z3.Select(lst.arr, j)))
+            return VStr(z3.Concat(*parts) if len(parts) > 1 else (parts[0] if parts else z3.StringVal('')), recv.ty), None
         r = JOIN(recv.term, lst.arr, lst.n)
         if z3.is_string_value(recv.term) and recv.term.as_string() == '':
             for R in JOIN_ELEMENT_CLASSES:
+                R, T = R if isinstance(R, tuple) else (R, R)
                 i = z3.Int(fid('ji'))
-                st.assume(z3.Implies(z3.ForAll([i], z3.Implies(z3.And(0 <= i, i < lst.n), z3.InRe(z3.Select(lst.arr, i), R))), z3.InRe(r, z3.Star(R))))
+                st.assume(z3.Implies(z3.ForAll([i], z3.Implies(z3.And(0 <= i, i < lst.n), z3.InRe(z3.Select(lst.arr, i), R))), z3.InRe(r, z3.Star(T))))
         st.assume(z3.Implies(lst.n == 0, r == z3.StringVal('')))
         st.assume(z3.Implies(lst.n == 1, r == z3.Select(lst.arr, 0)))
         st.assume(z3.Implies(lst.n == 2, r == z3.Concat(z3.Select(lst.arr, 0), recv.term, z3.Select(lst.arr, 1))))
@@ -468,7 +489,16 @@ def call_method(ex, st, node, recv, name, args, kwargs):
             st.assume(r >= 0); st.assume((r == 0) == z3.Not(z3.Contains(t, args[0].term)))
             return VInt(r), None
         if name == 'replace' and len(args) == 2:
-            return VStr(z3.Replace(t, args[0].term, args[1].term) if False else REPLACE_ALL(t, args[0].term, args[1].term), recv.ty), None
+            a_, b_ = args[0].term, args[1].term
+            r = REPLACE_ALL(t, a_, b_)
+            if z3.is_string_value(a_) and z3.is_string_value(b_) and len(zstr(a_)) == 1 and len(zstr(b_)) == 1 and zstr(a_) != zstr(b_):
+                # single-character replacement: length kept, the old character is gone, class membership follows the mapping
+                ca, cb = zstr(a_), zstr(b_)
+                st.assume(z3.Length(r) == z3.Length(t)); st.assume(z3.Not(z3.Contains(r, a_)))
+                st.assume(z3.Implies(z3.Not(z3.Contains(t, a_)), r == t))
+                for R in UPPER_CLOSED_CLASSES + REPLACE_CLASSES:
+                    st.assume(z3.Implies(z3.InRe(t, z3.Star(R)), z3.InRe(r, z3.Star(z3.Union(z3.Diff(R, z3.Re(ca)), z3.Re(cb))))))
+            return VStr(r, recv.ty), None
         if name == 'decode':
             return str_decode(ex, st, node, recv, args, kwargs), None
         if name == 'encode':
@@ -948,7 +978,7 @@ def m_re(kind):
     def f(ex, st, node, pattern, subject, flags=None):
         from . import regex
         if not z3.is_string_value(pattern.term): raise ToolLimit('non-literal regex (line %s)' % getattr(node, 'lineno', '?'))
-        pat = pattern.term.as_string()
+        pat = zstr(pattern.term)
         if isinstance(pattern.ty, TBytes): pat = pat.encode('latin-1')
         fl = regex_flags(flags)
         if isinstance(subject, VOpt):
